@@ -739,11 +739,17 @@ fn gen_hammer(r: &mut Rng, want: Option<Kind>) -> Generated {
             1 => Call::Interp { x, y },
             2 => {
                 let n = r.range(2, 4);
-                let ty = if r.chance(3, 4) { QTy::Q1 } else { QTy::QDyn };
+                // mostly the rank-1 fast path; sometimes the general n-d path (static or dynamic)
+                let (ty, shape) = match r.weighted(&[6, 2, 2]) {
+                    0 => (QTy::Q1, vec![n]),
+                    1 => (QTy::QDyn, vec![n]),
+                    _ => (QTy::Q2, vec![2, (n + 1) / 2]),
+                };
+                let n = shape.iter().product::<usize>();
                 Call::Array {
                     q: QSpec {
                         ty,
-                        shape: vec![n],
+                        shape,
                         xs: (0..n).map(|_| Fb(*r.pick(&kx))).collect(),
                         ys: if two { (0..n).map(|_| Fb(*r.pick(&ky))).collect() } else { vec![] },
                         ys_shape: None,
